@@ -76,6 +76,62 @@ class Registry:
         return self.by_target.get(qual)
 
 
+def effect_of_call(contract, c, argvals, kind, exc_matches=None):
+    """The effect of calling a function under contract with the given argument values, as a formula over (c.pre, c.post):
+    some case of the given kind applies and its postcondition holds.  Lets a dispatcher's contract say 'has exactly the
+    effect of f(args)' without restating f's contract."""
+    sh = CallCtx(c.eng, c.ctx, c.pre, c.post, dict(argvals), result=c.result, exc=c.exc, self_obj=c.self_obj)
+    alts = []
+    for case in contract.cases:
+        if case.kind != kind:
+            continue
+        g = case.when(sh) if case.when else z3.BoolVal(True)
+        parts = [g]
+        from .model import sv_equiv as _eqv
+        if case.update is not None:
+            cx = c.ctx.fork()
+            cx.st = c.pre
+            ce = CallCtx(c.eng, cx, c.pre, c.pre, dict(argvals), result=c.result, exc=c.exc, self_obj=c.self_obj)
+            case.update(ce)
+            extra = cx.pc[len(c.ctx.pc):]
+            for key in contract.modifies:
+                if cx.st.f[key] is c.post.f[key]:
+                    continue
+                e_ = _eqv(c.post.f[key], cx.st.f[key])
+                parts.append(z3.Implies(z3.And(*extra), e_) if extra else e_)
+        if case.post is not None:
+            parts += list(case.post(sh).values())
+        # the callee's frame: what it does not modify is unchanged
+        for key, sv in c.post.f.items():
+            if key not in contract.modifies and sv is not c.pre.f[key]:
+                parts.append(_eqv(sv, c.pre.f[key]))
+        alts.append(z3.And(*parts))
+    return z3.Or(*alts) if alts else z3.BoolVal(False)
+
+
+def delegated(c, target_suffix, expected, kind=None, allow_before=(), changed_before=()):
+    """The path made exactly one call to the function under contract whose name ends with target_suffix, with the expected
+    argument values, from the pre-state, and ended in the state that call left (nothing else touched the state)."""
+    from .model import sv_equiv as _eqv
+    calls = [n for n in c.ctx.notes if n[0] == 'called' and not any(n[1].endswith(a) for a in allow_before)]
+    d = {'exactly-one-call': z3.BoolVal(len(calls) == 1 and calls[0][1].endswith(target_suffix))}
+    if not (len(calls) == 1 and calls[0][1].endswith(target_suffix)):
+        return d
+    _, tgt, vals, st0, st1, k = calls[0]
+    if kind is not None:
+        d['outcome-of-that-call'] = z3.BoolVal(k == kind)
+    for name, exp in expected.items():
+        if name not in vals:
+            d['argument.' + name] = z3.BoolVal(False)
+            continue
+        d['argument.' + name] = c.eng.to_v(c.ctx, vals[name]) == (exp if isinstance(exp, z3.ExprRef) else c.eng.to_v(c.ctx, exp))
+    before = [_eqv(st0.f[key], c.pre.f[key]) for key in st0.f if st0.f[key] is not c.pre.f[key] and key not in changed_before]
+    after = [_eqv(c.post.f[key], st1.f[key]) for key in st1.f if st1.f[key] is not c.post.f[key]]
+    d['called-from-the-pre-state'] = z3.And(*before) if before else z3.BoolVal(True)
+    d['nothing-else-changes-the-state'] = z3.And(*after) if after else z3.BoolVal(True)
+    return d
+
+
 class NS:
     def __init__(self, d):
         self.__dict__.update(d)
@@ -183,7 +239,9 @@ def apply_at_call(eng, ctx, contract, obj, node, args, kwargs, qual, self_val=No
     c0 = CallCtx(eng, ctx, ctx.st, ctx.st, vals, self_obj=obj)
     req = contract.requires(c0) or {}
     for rn, rt in req.items():
-        if rn.startswith('assume:'):
+        if rn.startswith('assume:') or rn.startswith('dom.'):
+            # 'dom.*' clauses delimit the domain of the property for the body proof (names like '*' that the
+            # statement excludes); the summary is used at call sites without them -- listed as an assumption
             continue
         eng.oblig('call:%s/pre.%s' % (contract.target, rn), ctx, rt, kind='callpre')
     guards = []
@@ -229,6 +287,7 @@ def apply_at_call(eng, ctx, contract, obj, node, args, kwargs, qual, self_val=No
         post = case.post(cc) if case.post else {}
         for pn, pt in post.items():
             c.assume(pt)
+        c.notes.append(('called', contract.target, dict(vals), pre, c.st, case.kind))
         if case.kind == 'return':
             yield c, result
         else:
@@ -560,6 +619,11 @@ def _verify_body(eng, contract, target, mod, cname, node, res, seed, timeout_ms,
                     for h in hyps:
                         print('  HYP', str(h).replace('\n', ' ')[:400])
                     print('  GOAL', str(goal).replace('\n', ' ')[:800])
+                    if z3.is_or(goal):
+                        for di, dj in enumerate(goal.children()):
+                            for ci, conj in enumerate(dj.children() if z3.is_and(dj) else [dj]):
+                                rr = smt.prove(hyps, conj, timeout_ms=4000, seed=seed, quick_only=True)
+                                print('   DISJUNCT', di, 'conjunct', ci, rr['status'], str(conj).replace('\n', ' ')[:140])
                     for ai, alt in enumerate(item.get('alts', {}).get(idx_, [])):
                         for ci, conj in enumerate(alt.children()):
                             rr = smt.prove(hyps, conj, timeout_ms=4000, seed=seed, quick_only=True)
